@@ -146,6 +146,16 @@ reg("C13",
     "exhaustive enumeration + run-time name-visibility probes vs visibility model + recorder", "DESIGN.md §4 C13")
 
 
+reg("C08",
+    "Exploration: random module bodies (visible fns in every visibility spelling x qualifier combination mixed with private fns, "
+    "body-less declarations and ~40 other item kinds that contain `fn` tokens) and all item sequences up to length 2 (quick) / 3 "
+    "(thorough) over a 21-item alphabet are expanded by real rustc; the ordered method list of the recorded trait must equal the "
+    "generator's list of directly-contained non-private fns. A compiled sub-corpus with distractor items is run under the C01 "
+    "oracle, i.e. every method is called from the parent scope through the re-exported trait.",
+    "Requested-visibility observation from outside the parent is decided by C13; `const fn` members only on the recorded expansion.",
+    "expansion recorder + generator-truth oracle (bounded exhaustive) + runtime trace differential", "DESIGN.md §4 C08")
+
+
 def manifest():
     hooks_commits = subprocess.run(["git", "-C", "/repo", "log", "--format=%H", "--grep=^verif hook"],
                                    stdout=subprocess.PIPE, text=True).stdout.split()
